@@ -292,3 +292,51 @@ def replay_lane(prop, path):
     judge()
     print("replay verdict: %s" % ("violation reproduced" if bad else "no violation in this artefact"))
     return 1 if bad else 0
+
+
+def asan_lanes(v, prop, seed, n=8):
+    """Thorough only: the lane driver on the ASan+UBSan build with detect_stack_use_after_return.  Word-level validation
+    sees hooked atomics only; a plain access to a synchronous waiter (stack of the waiting thread) or to a continuation
+    after the point where it may have been handed over / freed shows, at best, as rare corruption (finding F6 on
+    workloops).  ASan reports it when it happens; the steering holds of drv_lane widen the hand-off windows."""
+    drv = build_driver("drv_lane", "asan")
+    d = rundir(prop)
+    env = {"ASAN_OPTIONS": "detect_leaks=0:exitcode=66:abort_on_error=0:halt_on_error=1:detect_stack_use_after_return=1",
+           "UBSAN_OPTIONS": "print_stacktrace=0"}
+    for sym in ("/usr/bin/llvm-symbolizer-15", "/usr/bin/llvm-symbolizer", "/usr/bin/llvm-symbolizer-14"):
+        if os.path.exists(sym):
+            env["ASAN_SYMBOLIZER_PATH"] = sym
+            break
+    shapes = [("1", "1", "0", "1", "3"), ("2", "1", "0", "1", "3"), ("0", "0", "0", "1", "4"), ("1", "2", "0", "1", "3"),
+              ("2", "1", "1", "0", "3"), ("3", "0", "0", "1", "4"), ("1", "1", "1", "1", "3"), ("2", "2", "0", "0", "3")]
+    clean = 0
+    from concurrent.futures import ThreadPoolExecutor
+
+    def one(i):
+        W, susp, inact, pp, nt = shapes[i % len(shapes)]
+        s = seed * 1000 + 600 + i
+        tr = os.path.join(d, "asan_lane_%d.ndjson" % i)
+        return i, s, shapes[i % len(shapes)], sh([drv, tr, str(s), str(2 + i % 2), "6", "30", W, susp, inact, pp, nt], timeout=1500, env=env)
+    with ThreadPoolExecutor(max_workers=4) as ex:
+        res = list(ex.map(one, range(n)))
+    for i, s, shp, (rc, out, err) in res:
+        if rc == 124:
+            raise Broken("ASan run of drv_lane timed out (seed %d %s)" % (s, shp))
+        m = re.search(r"ERROR: (AddressSanitizer|UndefinedBehaviorSanitizer)[^\n]*", err)
+        if m:
+            v.violation("sanitizer report on the ASan build (W,susp,inact,pp,nt=%s seed %d): an object of a hand-off was accessed after it "
+                        "may have gone: %s" % (shp, s, m.group(0)[:300]), save_replay(prop, "asan_lane_%d.txt" % s, err[-20000:]))
+            continue
+        if rc in (2, 70, 71):
+            fails = [f for f in re.findall(r"ORACLE-FAIL (C\d\d) (.*)", err)]
+            mine = [t for p_, t in fails if p_ == prop]
+            if rc == 2 and not mine:
+                continue       # another property's oracle: its own check judges it
+            v.violation("ASan build: %s (%s seed %d): %s" % ({2: "API oracle failed", 70: "crash", 71: "hang"}[rc], shp, s,
+                                                            "; ".join(mine[:3]) or err.strip()[-300:]), save_replay(prop, "asan_lane_%d.txt" % s, err[-20000:]))
+            continue
+        if rc != 0:
+            raise Broken("ASan run of drv_lane failed rc=%d (seed %d): %s" % (rc, s, err[-800:]))
+        clean += 1
+    v.traces += clean
+    v.notes["asan_lane_runs_clean"] = clean
